@@ -136,6 +136,8 @@ def gen_history_ops(rng, tree, n_gens=None, nested=None, p_sf=0.15, p_n=0.1, p_e
 def setup_ok(results, allowed=(0,)):
     """True if every command of a setup phase ended with one of the allowed exit codes"""
     for op, res, fired in results:
+        if res is not None and op.get("kill") and res.outcome[0] == "killed":
+            continue  # an interruption that the scenario asked for
         if res is not None and (res.outcome[0] != "exit" or res.outcome[1] not in allowed):
             return False
     return True
